@@ -77,6 +77,9 @@ type Op struct {
 	At      time.Time                         `json:"at,omitempty"`
 	Forced  bool                              `json:"forced,omitempty"` // dequeue whose batch covers every eligible message
 	Count   int                               `json:"count,omitempty"`  // churn
+	// Pre moves the clock immediately before the call, with no observation (listing,
+	// stats) of the store in between: the call itself is the first one to meet the new instant.
+	Pre time.Duration `json:"pre,omitempty"`
 }
 
 // ChurnRoute is used by KChurn only; generated operations never name it.
@@ -91,6 +94,9 @@ func (o Op) String() string {
 		}
 		return fmt.Sprintf("%s(%s)", o.Kind, strings.Join(ids, ","))
 	case KDequeue:
+		if o.Pre > 0 {
+			return fmt.Sprintf("dequeue(route=%q target=%q batch=%d ttl=%s, clock +%s unobserved)", o.Deq.Route, o.Deq.Target, o.Deq.Batch, o.Deq.LeaseTTL, o.Pre)
+		}
 		return fmt.Sprintf("dequeue(route=%q target=%q batch=%d ttl=%s)", o.Deq.Route, o.Deq.Target, o.Deq.Batch, o.Deq.LeaseTTL)
 	case KAdvance:
 		return fmt.Sprintf("advance(%s)", o.Dur)
